@@ -48,6 +48,7 @@ type Graph struct {
 	Mode        string      `json:"mode"` // pregel | dag
 	MaxSteps    int         `json:"maxSteps,omitempty"`
 	NegMaxSteps bool        `json:"negMaxSteps,omitempty"` // compile option WithMaxRunSteps(-1): the run must refuse to start
+	CompileCB   bool        `json:"compileCB,omitempty"`   // compiled with a (no-op) graph compile callback: must not change any run
 	Nodes       []Node      `json:"nodes"`
 	Edges       [][2]string `json:"edges"`
 	Branches    []Branch    `json:"branches,omitempty"`
@@ -172,8 +173,16 @@ func CompileOpts(g *Graph) []compose.GraphCompileOption {
 	} else if g.MaxSteps > 0 {
 		opts = append(opts, compose.WithMaxRunSteps(g.MaxSteps))
 	}
+	if g.CompileCB {
+		opts = append(opts, compose.WithGraphCompileCallbacks(noopCompileCB{}))
+	}
 	return opts
 }
+
+// a graph compile callback that does nothing (what introspection / visualisation integrations install)
+type noopCompileCB struct{}
+
+func (noopCompileCB) OnFinish(ctx context.Context, info *compose.GraphInfo) {}
 
 // Build constructs the compose graph of a case. The first error of an Add* call is returned.
 func Build(g *Graph, prefix string, bo *BuildOpts) (*compose.Graph[M, M], error) {
